@@ -851,6 +851,7 @@ pub fn truncate(s: &str, n: usize) -> String {
 }
 
 pub fn main(spec: Spec) -> ! {
+    crate::gen::WORD_AWARE.store(true, std::sync::atomic::Ordering::Relaxed);
     let a = parse_args();
     if let Some(p) = a.replay.clone() {
         replay(&spec, &a, &p)
